@@ -13,6 +13,7 @@
            ok     : that tree is precedence-consistent
            term   : every terminal of the tree satisfies `termSyn` (a self-contained operand)
            clean  : every terminal of the tree satisfies `clean` (hypothesis of seq_replace_ok)
+           adm    : the program satisfies `Admissible`, the hypothesis of the theorems
     term <fmt> <k> <hex text> <bits>   -> hex of the terminal's display
     parse <fmt> <hex>                  -> `some`/`none` and the token count
   tree ::= F <symbol index> <n> tree*n | T <terminal index> <hex text> <bits>
@@ -106,7 +107,8 @@ def answer (line : String) : String :=
           let fl := firstList fns tms f
           s!"render={b01 (model == text)} sim={b01 (sim == model)} lex={b01 (toks == stripToks (toksT fns tms f t))} " ++
           s!"parse={b01 (parse f toks == some want)} ok={b01 (ok f hl a && flat want == toks)} " ++
-          s!"term={b01 (termsOk (termSyn f fl) f t)} clean={b01 (termsOk clean f t)}" ++ (if model == text then "" else " " ++ hex model)
+          s!"term={b01 (termsOk (termSyn f fl) f t)} clean={b01 (termsOk clean f t)} " ++
+          s!"adm={b01 (wfT fns t && termsT (termOk f fl) tms f t && termsT (rendOk f fl) tms f t)}" ++ (if model == text then "" else " " ++ hex model)
       | _, _ => "bad-op"
   | ["term", fm, k, h, b] =>
       match fm.toNat?, k.toNat?, b.toNat? with
